@@ -63,6 +63,15 @@ func (s colorizeToolS) wrapColorAndBg(text string, clr, bg color.Color) string {
 	if bg != clrNone {
 		s.echoBgColor(&sb, bg)
 	}
+	if clr == clrNone {
+		// no foreground colour, e.g. SetLevelColors(lvl, color.NoColor, bg):
+		// there is no code to switch on ("\x1b[-1m" is not a valid sequence)
+		_, _ = sb.WriteString(text)
+		if bg != clrNone {
+			s.echoResetColor(&sb)
+		}
+		return sb.String()
+	}
 	color.WrapColorTo(&sb, clr, text)
 	return sb.String()
 }
